@@ -503,6 +503,42 @@ SKELETONS = [
     ("src/iterator/backend.rs", "poll_signal", [
         ("is_closed", r"\.is_closed\s*\("), ("iter.next", r"\.iter\s*\.next\s*\("),
         ("poll_pending", r"\.poll_pending\s*\("), ("flush", r"\.flush\s*\("), ("pending", r"\.pending\s*\(")]),
+    # the front ends: the blocking readiness callback of `Signals`, `wait`, `forever`, and the adapters
+    ("src/iterator/mod.rs", "has_signals", [
+        ("loop", r"\bloop\b"), ("while", r"\bwhile\b"), ("for", r"\bfor\b"),
+        ("read.one", r"\.read\s*\(\s*&mut\s*\[0u8\]\s*\)"), ("read.other", r"\.read\w*\s*\((?!\s*&mut\s*\[0u8\]\s*\))"),
+        ("ok.nonzero", r"break\s+Ok\s*\(\s*num_read\s*>\s*0\s*\)"), ("ok.other", r"Ok\s*\(\s*(true|false)\s*\)"),
+        ("interrupted", r"ErrorKind::Interrupted"), ("break.err", r"break\s+Err\s*\(")]),
+    ("src/iterator/mod.rs", "wait", [
+        ("poll_pending.has_signals", r"\.poll_pending\s*\(\s*&mut\s+Self::has_signals\s*\)"),
+        ("poll_pending.other", r"\.poll_pending\s*\((?!\s*&mut\s+Self::has_signals\s*\))"),
+        ("some.pending", r"Ok\s*\(\s*Some\s*\(\s*pending\s*\)\s*\)\s*=>\s*pending"),
+        ("none.pending", r"Ok\s*\(\s*None\s*\)\s*=>\s*self\.pending\s*\(\s*\)"), ("panic", r"\bpanic!")]),
+    ("src/iterator/mod.rs", "forever", [
+        ("iterator.new", r"Forever\s*\(\s*RefSignalIterator::new\s*\(\s*&mut\s+self\.0\s*\)\s*\)")]),
+    ("src/iterator/mod.rs", "next", [
+        ("loop", r"\bloop\b"),
+        ("poll_signal.has_signals", r"self\.0\.poll_signal\s*\(\s*&mut\s+SignalsInfo::<E>::has_signals\s*\)"),
+        ("signal.some", r"PollResult::Signal\s*\(\s*result\s*\)\s*=>\s*break\s+Some\s*\(\s*result\s*\)"),
+        ("closed.none", r"PollResult::Closed\s*=>\s*break\s+None"),
+        ("pending.continue", r"PollResult::Pending\s*=>\s*continue"),
+        ("err.panic", r"PollResult::Err\s*\(\s*error\s*\)\s*=>\s*panic!"),
+        ("if", r"\bif\b"), ("return", r"\breturn\b")]),
+    ("signal-hook-tokio/src/lib.rs", "has_signals", [
+        ("poll_read", r"Pin::new\s*\(\s*read\s*\)\s*\.poll_read\s*\(\s*ctx\s*,"),
+        ("pending.false", r"Poll::Pending\s*=>\s*Ok\s*\(\s*false\s*\)"),
+        ("ready.true", r"Poll::Ready\s*\(\s*Ok\s*\(\s*(?:\(\s*\)|num_read)\s*\)\s*\)\s*=>\s*Ok\s*\(\s*(?:true|num_read\s*>\s*0)\s*\)"),
+        ("ready.err", r"Poll::Ready\s*\(\s*Err\s*\(\s*error\s*\)\s*\)\s*=>\s*Err\s*\(\s*error\s*\)"),
+        ("if", r"\bif\b"), ("return", r"\breturn\b"), ("self", r"\bself\b")]),
+    ("signal-hook-async-std/src/lib.rs", "has_signals", None),
+    ("signal-hook-tokio/src/lib.rs", "poll_next", [
+        ("poll_signal.has_signals", r"self\.0\.poll_signal\s*\(\s*&mut\s*\|\s*read\s*\|\s*Self::has_signals\s*\(\s*read\s*,\s*ctx\s*\)\s*\)"),
+        ("signal.some", r"PollResult::Signal\s*\(\s*sig\s*\)\s*=>\s*Poll::Ready\s*\(\s*Some\s*\(\s*sig\s*\)\s*\)"),
+        ("closed.none", r"PollResult::Closed\s*=>\s*Poll::Ready\s*\(\s*None\s*\)"),
+        ("pending.pending", r"PollResult::Pending\s*=>\s*Poll::Pending"),
+        ("err.panic", r"PollResult::Err\s*\(\s*error\s*\)\s*=>\s*panic!"),
+        ("if", r"\bif\b"), ("return", r"\breturn\b"), ("let", r"\blet\b")]),
+    ("signal-hook-async-std/src/lib.rs", "poll_next", None),
 ]
 
 
@@ -554,7 +590,7 @@ def extract_skeletons():
             src = src[:cut]
         # the action closure of the iterator / the inherent `pending` are the last definitions
         occ = 0
-        if fn == "next":
+        if fn == "next" and rel.endswith("backend.rs"):
             # `Pending::next`: the `fn next` whose body loads from the exfiltrator
             sigs = [m for m in re.finditer(r"\bfn\s+next\b", src)]
             occ = None
